@@ -32,7 +32,7 @@ import logging.config
 from typing import List
 
 import pathspec
-from confuse import Configuration
+from confuse import Configuration, ConfigTypeError
 from pkg_resources import get_distribution, DistributionNotFound
 
 from .config import config_template, dict_to_settings, Settings
@@ -127,6 +127,14 @@ def main(args: List[str] = tuple(sys.argv[1:])):
         config_template(output_dir_relative_to_config))
 
     settings_obj = dict_to_settings(settings_dict)
+
+    # A single string instead of a list of patterns would be taken apart
+    # into one pattern per character below, reject it like any other
+    # value of the wrong type
+    for filters, _ in settings["input"]["exclude_filters"].resolve():
+        if isinstance(filters, (str, bytes)):
+            raise ConfigTypeError(
+                f"input.exclude_filters: must be a list of patterns, not the string {filters!r}")
 
     # Concatenate all exclude filters rather than overriding the entire list
     settings_obj.input.exclude_filters = list(
